@@ -52,9 +52,34 @@ def _shape(rng, lo=1, hi=12):
     if t == 0: return (int(rng.integers(lo, hi + 1)),) * 2
     return (int(rng.integers(lo, hi + 1)), int(rng.integers(lo, hi + 1)))
 
+def gen_extreme(rng):
+    """seams: seeds >= 2**32 (and pairs differing by 2**32), dark rates a hair below a whole electron, counts at the representable limit"""
+    t = int(rng.integers(0, 4))
+    seed = int(rng.integers(2**32, 2**48)) if rng.integers(0, 2) else int(rng.integers(0, 2**31))
+    if t == 0:
+        sh = _shape(rng, 3, 10)
+        return {'kind': 'power', 'shape': list(sh), 'hole': bool(rng.integers(0, 2)), 'rms': float(rng.choice([1e-12, 5e-9, 1e-3, 10.0])),
+                'hpf': float(rng.uniform(1, 8)), 'exp': float(rng.uniform(1.5, 4)), 'px': float(rng.choice([1e-9, 1e-3, 1e3])), 'seed': seed,
+                'mask_dtype': 'float64', 'extreme': 'seed/scale'}
+    if t == 1:
+        k = int(rng.integers(1, 2000)); e = int(rng.choice([30, 34, 40]))
+        return {'kind': 'dark', 'shape': (list(_shape(rng, 1, 4)) if rng.integers(0, 2) else 1), 'rate': float(k) - 2.0 ** -e, 'fpn': 0, 'seed': seed,
+                'extreme': 'rate-just-below-integer'}
+    if t == 2:
+        sh = _shape(rng, 1, 6)
+        return {'kind': 'read', 'shape': list(sh), 'img': vlib.fl(np.round(rng.uniform(0, 500, sh)).ravel()), 'electrons': float(rng.choice([1e-6, 0.5, 1e6])),
+                'seed': seed, 'frame_dtype': ['float64', 'int16', 'uint8'][int(rng.integers(0, 3))], 'extreme': 'seed/scale'}
+    sh = _shape(rng, 1, 6)
+    method = ['poisson', 'gaussian'][int(rng.integers(0, 2))]
+    lim = LAM_MAX * (1 - 2.0 ** -40) if rng.integers(0, 2) else LAM_MAX * (1 + 2.0 ** -40)
+    vals = rng.uniform(1000, 1e6, sh); vals.flat[0] = lim
+    return {'kind': 'shot', 'method': method, 'shape': list(sh), 'img': vlib.fl(vals.ravel()), 'seed': seed,
+            'flavor': 'ok' if lim <= LAM_MAX else 'huge', 'int_dtype': False, 'extreme': 'count-at-limit'}
+
 def generate(rng, tier):
     n = {'quick': 150, 'thorough': 3000, 'search': 600}[tier]
     out = []
+    for _ in range({'quick': 8, 'thorough': 150, 'search': 300}[tier]): out.append(gen_extreme(rng))
     for k in range(n):
         t = k % 10
         seed = int(rng.integers(0, 2**31))
@@ -106,7 +131,7 @@ def nontrivial(c):
     if c['kind'] in ('dark', 'rule07'): return c['fpn'] > 0 or c['shape'] != 1
     return c['shape'][0] != c['shape'][1]
 def tags(c):
-    t = [c['kind']]
+    t = [c['kind']] + (['extreme:' + c['extreme']] if c.get('extreme') else [])
     if c['kind'] == 'shot': t += ['shot:' + c['method'], 'shot:' + c['flavor']]
     if c['kind'] in ('dark', 'rule07'): t.append(c['kind'] + (':fpn' if c['fpn'] > 0 else ':nofpn'))
     if c['kind'] == 'read': t.append('read:' + c.get('frame_dtype', 'float64'))
@@ -148,14 +173,14 @@ def impl(c):
                 snap = img.tobytes(); img.flags.writeable = False
                 out = D.shot_noise(img, method=c['method'], seed=c['seed'])
                 again = D.shot_noise(img, method=c['method'], seed=c['seed'])
-                other = D.shot_noise(img, method=c['method'], seed=c['seed'] + 1)
+                other = D.shot_noise(img, method=c['method'], seed=c['seed'] + (2**32 if c['seed'] % 2 else 1))
                 res = {'out': vlib.fl(np.asarray(out, dtype=float).ravel()), 'shape': list(np.shape(out)), 'same': bool(np.array_equal(out, again)),
                        'differs': bool(not np.array_equal(out, other)), 'untouched': img.tobytes() == snap, 'dtype': str(np.asarray(out).dtype)}
             elif k == 'read':
                 img = _read_frame(c); img.flags.writeable = False
                 out = D.read_noise(img, c['electrons'], seed=c['seed'])
                 again = D.read_noise(img, c['electrons'], seed=c['seed'])
-                other = D.read_noise(img, c['electrons'], seed=c['seed'] + 1)
+                other = D.read_noise(img, c['electrons'], seed=c['seed'] + 2**32 * (c['seed'] % 2) + 1 - (c['seed'] % 2))
                 out0 = D.read_noise(np.zeros(c['shape']), c['electrons'], seed=c['seed'])
                 res = {'out': vlib.fl(np.asarray(out, dtype=float).ravel()), 'shape': list(out.shape), 'same': bool(np.array_equal(out, again)),
                        'differs': bool(not np.array_equal(out, other)), 'noise_only': vlib.fl(out0.ravel()), 'dtype': str(out.dtype)}
@@ -163,7 +188,10 @@ def impl(c):
                 sh = c['shape'] if c['shape'] == 1 else tuple(c['shape'])
                 out = D.dark_current(c['rate'], sh, fpn_factor=c['fpn'], seed=c['seed'])
                 again = D.dark_current(c['rate'], sh, fpn_factor=c['fpn'], seed=c['seed'])
-                res = {'out': vlib.fl(np.asarray(out, dtype=float).ravel()), 'shape': list(np.shape(out)), 'same': bool(np.array_equal(out, again))}
+                if c['fpn'] > 0:
+                    wrap = D.dark_current(c['rate'], sh, fpn_factor=c['fpn'], seed=c['seed'] + 2**32)
+                    res['differs_wrap'] = bool(np.size(out) < 4 or not np.array_equal(out, wrap))
+                res.update({'out': vlib.fl(np.asarray(out, dtype=float).ravel()), 'shape': list(np.shape(out)), 'same': bool(np.array_equal(out, again))})
             elif k == 'rule07':
                 sh = c['shape'] if c['shape'] == 1 else tuple(c['shape'])
                 args = (c['temperature'], c['cutoff'], c['pixelscale'])
@@ -177,8 +205,14 @@ def impl(c):
                 out = lentil.power_spectrum(mk, c['px'], c['rms'], c['hpf'], c['exp'], seed=c['seed'])
                 again = lentil.power_spectrum(mk, c['px'], c['rms'], c['hpf'], c['exp'], seed=c['seed'])
                 other = lentil.power_spectrum(mk, c['px'], c['rms'], c['hpf'], c['exp'], seed=c['seed'] + 1)
-                res = {'out': vlib.fl(out.ravel()), 'shape': list(out.shape), 'same': bool(np.array_equal(out, again)),
-                       'differs': bool(not np.array_equal(out, other)), 'untouched': mk.tobytes() == snap}
+                wrap = lentil.power_spectrum(mk, c['px'], c['rms'], c['hpf'], c['exp'], seed=c['seed'] + 2**32)
+                # history independence: the same call, before and after unrelated calls with other pixel scales / filter parameters
+                alt1 = lentil.power_spectrum(mk, c['px'] * 3, c['rms'], c['hpf'], c['exp'], seed=c['seed'])
+                lentil.power_spectrum(mk, c['px'], c['rms'], c['hpf'] + 1.5, c['exp'], seed=c['seed'])
+                alt2 = lentil.power_spectrum(mk, c['px'] * 3, c['rms'], c['hpf'], c['exp'], seed=c['seed'])
+                res['history_free'] = bool(np.array_equal(alt1, alt2))
+                res.update({'out': vlib.fl(out.ravel()), 'shape': list(out.shape), 'same': bool(np.array_equal(out, again)),
+                       'differs': bool(not np.array_equal(out, other)), 'differs_wrap': bool(not np.array_equal(out, wrap)), 'untouched': mk.tobytes() == snap})
             elif k == 'cosmic':
                 np.random.seed(c['state'])
                 area = c['shape'][0] * 5e-6 * c['shape'][1] * 5e-6
@@ -311,6 +345,7 @@ def oracle(c, io):
         if c['fpn'] == 0 and np.any(out != np.floor(c['rate'])): return f"dark frame without pattern noise is not floor(rate) = {np.floor(c['rate'])}"
         if out.min() < 0 or np.any(out != np.floor(out)): return 'dark frame not a non-negative integer'
         if not io['same']: return 'same seed gave a different dark frame'
+        if c['fpn'] > 0 and c['rate'] > 50 and not io.get('differs_wrap', True): return 'seeds differing by 2**32 gave the same pattern noise'
         return None
     if k == 'rule07':
         if 'exc' in io: return f"rule07_dark_current raised {io['msg']}"
@@ -329,7 +364,9 @@ def oracle(c, io):
         rms = np.sqrt(np.mean(out[mk != 0] ** 2))
         if abs(rms - c['rms']) > 1e-9 * c['rms']: return f"RMS over the mask is {rms:.6g}, requested {c['rms']:.6g}"
         if not io['same']: return 'same seed gave a different surface'
+        if not io.get('history_free', True): return 'power_spectrum: the same arguments and seed gave a different surface after unrelated calls (history dependence)'
         if not io['differs']: return 'different seeds gave the same surface'
+        if not io.get('differs_wrap', True): return f"seeds {c['seed']} and {c['seed']} + 2**32 gave the same surface"
         if not io['untouched']: return 'mask modified'
         return None
     if k == 'cosmic':
